@@ -656,15 +656,53 @@ func checkIdleExclusive(c *Ctx, fns []*ssa.Function, lf *lockFacts) {
 // checkBufferTypestate implements C01-R7 over the given functions.
 func checkBufferTypestate(c *Ctx, funcs []*ssa.Function) {
 	p := c.P
-	for _, f := range funcs {
-		fn := f
+	// consumers: mosdns functions that release one of their own parameters; a call of one is a release of the argument
+	consumes := map[*ssa.Function]map[int]bool{}
+	for _, f := range p.Funcs {
+		g := f
 		eachInstr(f, func(in ssa.Instruction) {
 			ci, ok := in.(ssa.CallInstruction)
 			if !ok || callName(ci) != poolRel {
 				return
 			}
+			for i, pa := range g.Params {
+				if ci.Common().Args[0] == ssa.Value(pa) {
+					if consumes[g] == nil {
+						consumes[g] = map[int]bool{}
+					}
+					consumes[g][i] = true
+				}
+			}
+		})
+	}
+	releasedArg := func(ci ssa.CallInstruction) (ssa.Value, string, bool) {
+		if callName(ci) == poolRel {
+			return ci.Common().Args[0], "", true
+		}
+		if _, isGo := ci.(*ssa.Go); isGo {
+			return nil, "", false
+		}
+		if sc := staticCallee(ci); sc != nil {
+			for i := range consumes[sc] {
+				if i < len(ci.Common().Args) {
+					return ci.Common().Args[i], " by " + funcName(sc), true
+				}
+			}
+		}
+		return nil, "", false
+	}
+	for _, f := range funcs {
+		fn := f
+		eachInstr(f, func(in ssa.Instruction) {
+			ci, ok := in.(ssa.CallInstruction)
+			if !ok {
+				return
+			}
+			x, via, ok := releasedArg(ci)
+			if !ok {
+				return
+			}
 			c.see(fn)
-			x := ci.Common().Args[0]
 			// derived values: loads and slices computed from x
 			derived := map[ssa.Value]bool{x: true}
 			changed := true
@@ -790,12 +828,22 @@ func checkBufferTypestate(c *Ctx, funcs []*ssa.Function) {
 				return
 			}
 			off, found := reachAvoiding(in, uses, func(y ssa.Instruction) bool { return def != nil && y == def })
+			if !found {
+				// the release site itself again (a loop around it) with the same buffer
+				if _, again := reachAvoiding(in, func(y ssa.Instruction) bool { return y == in }, func(y ssa.Instruction) bool { return def != nil && y == def }); again {
+					if _, isParam := x.(*ssa.Parameter); !isParam || def != nil {
+						off, found = in, true
+					}
+				}
+			}
 			if found {
 				what := "used"
-				if cc, ok := off.(ssa.CallInstruction); ok && callName(cc) == poolRel {
-					what = "released a second time"
+				if cc, ok := off.(ssa.CallInstruction); ok {
+					if _, _, isRel := releasedArg(cc); isRel {
+						what = "released (or sent) a second time"
+					}
 				}
-				c.fail(key, instrPos(off), "buffer released at %s is %s afterwards (%s): the pool hands it to another query meanwhile", p.pos(instrPos(in)), what, strings.TrimSpace(off.String()))
+				c.fail(key, instrPos(off), "buffer released%s at %s is %s afterwards (%s): the pool hands it to another query meanwhile", via, p.pos(instrPos(in)), what, strings.TrimSpace(off.String()))
 			} else {
 				c.ok(key, instrPos(in), "no use of the buffer after its release on any path")
 			}
